@@ -46,8 +46,8 @@ func InstallClock(start int64) *Clock {
 // UninstallClock back to the real clock
 func UninstallClock() { cache.VerifSetClock(nil) }
 
-func (c *Clock) Now() int64      { return c.v.Load() }
-func (c *Clock) Set(v int64)     { c.v.Store(v) }
+func (c *Clock) Now() int64            { return c.v.Load() }
+func (c *Clock) Set(v int64)           { c.v.Store(v) }
 func (c *Clock) Advance(d int64) int64 { return c.v.Add(d) }
 
 // ---------------------------------------------------------------------------------------
@@ -102,17 +102,17 @@ type PointEvent struct {
 
 // Points hook point manager
 type Points struct {
-	mu      sync.Mutex
-	counts  sync.Map // name -> *atomic.Int64
-	holds   map[string][]*Hold
-	armed   atomic.Int64
-	custom  atomic.Value // map[string]func()
-	jitter  atomic.Value // *jitterCfg
-	record  atomic.Bool
-	events  []PointEvent
-	evMu    sync.Mutex
-	jrnd    *rand.Rand
-	jrndMu  sync.Mutex
+	mu     sync.Mutex
+	counts sync.Map // name -> *atomic.Int64
+	holds  map[string][]*Hold
+	armed  atomic.Int64
+	custom atomic.Value // map[string]func()
+	jitter atomic.Value // *jitterCfg
+	record atomic.Bool
+	events []PointEvent
+	evMu   sync.Mutex
+	jrnd   *rand.Rand
+	jrndMu sync.Mutex
 }
 
 type jitterCfg struct {
